@@ -8,6 +8,8 @@ import (
 	"sort"
 	"strings"
 	"sync"
+	"sync/atomic"
+	"unsafe"
 )
 
 var termMu sync.Mutex
@@ -38,6 +40,8 @@ var (
 )
 
 func BVSort(w int) *Sort {
+	termMu.Lock()
+	defer termMu.Unlock()
 	if s, ok := bvSorts[w]; ok {
 		return s
 	}
@@ -48,6 +52,8 @@ func BVSort(w int) *Sort {
 
 func ArraySort(idx, elem *Sort) *Sort {
 	k := idx.String() + "->" + elem.String()
+	termMu.Lock()
+	defer termMu.Unlock()
 	if s, ok := arrSorts[k]; ok {
 		return s
 	}
@@ -83,13 +89,100 @@ type Term struct {
 	Pats     [][]*Term
 	ArgSorts []*Sort // for app: declared argument sorts
 	hasBound bool
+	hasQuant bool // contains a quantifier
 	size     int
 	id       int
 }
 
-var termCounter int
+var termCounter int64
 
-var internTab = map[string]*Term{}
+type internShard struct {
+	mu sync.Mutex
+	m  map[uint64][]*Term
+}
+
+var internShards [64]internShard
+
+func init() {
+	for i := range internShards {
+		internShards[i].m = map[uint64][]*Term{}
+	}
+}
+
+// sweepInterned forgets every hash-consed term created after mark (no goroutine may be building terms meanwhile).
+func sweepInterned(mark int64) {
+	for i := range internShards {
+		sh := &internShards[i]
+		sh.mu.Lock()
+		for h, l := range sh.m {
+			k := 0
+			for _, x := range l {
+				if int64(x.id) <= mark {
+					l[k] = x
+					k++
+				}
+			}
+			if k == 0 {
+				delete(sh.m, h)
+			} else if k < len(l) {
+				for z := k; z < len(l); z++ {
+					l[z] = nil
+				}
+				sh.m[h] = l[:k]
+			}
+		}
+		sh.mu.Unlock()
+	}
+	skMemo.Range(func(k, _ any) bool {
+		skMemo.Delete(k)
+		return true
+	})
+}
+
+func termHash(t *Term) uint64 {
+	const prime = 1099511628211
+	h := uint64(14695981039346656037)
+	mix := func(x uint64) {
+		h ^= x
+		h *= prime
+	}
+	for i := 0; i < len(t.Op); i++ {
+		mix(uint64(t.Op[i]))
+	}
+	mix(0xff)
+	for i := 0; i < len(t.Name); i++ {
+		mix(uint64(t.Name[i]))
+	}
+	mix(uint64(uintptr(unsafe.Pointer(t.Sort))))
+	if t.Int != nil {
+		for _, w := range t.Int.Bits() {
+			mix(uint64(w))
+		}
+		mix(uint64(t.Int.Sign() + 2))
+	}
+	if t.B {
+		mix(7)
+	}
+	for _, a := range t.Args {
+		mix(uint64(a.id))
+	}
+	return h
+}
+
+func sameShape(a, b *Term) bool {
+	if a.Op != b.Op || a.Name != b.Name || a.Sort != b.Sort || a.B != b.B || len(a.Args) != len(b.Args) {
+		return false
+	}
+	if (a.Int == nil) != (b.Int == nil) || (a.Int != nil && a.Int.Cmp(b.Int) != 0) {
+		return false
+	}
+	for i := range a.Args {
+		if a.Args[i] != b.Args[i] {
+			return false
+		}
+	}
+	return true
+}
 
 // intern returns the canonical instance of a structurally identical term (hash-consing).
 func intern(t *Term) *Term {
@@ -97,26 +190,16 @@ func intern(t *Term) *Term {
 	case "forall", "exists":
 		return t
 	}
-	var sb strings.Builder
-	sb.WriteString(t.Op)
-	sb.WriteByte('|')
-	sb.WriteString(t.Name)
-	sb.WriteByte('|')
-	sb.WriteString(t.Sort.String())
-	if t.Int != nil {
-		sb.WriteByte('|')
-		sb.WriteString(t.Int.String())
+	h := termHash(t)
+	sh := &internShards[h&63]
+	sh.mu.Lock()
+	defer sh.mu.Unlock()
+	for _, x := range sh.m[h] {
+		if sameShape(x, t) {
+			return x
+		}
 	}
-	for _, a := range t.Args {
-		fmt.Fprintf(&sb, "|%d", a.id)
-	}
-	k := sb.String()
-	termMu.Lock()
-	defer termMu.Unlock()
-	if x, ok := internTab[k]; ok {
-		return x
-	}
-	internTab[k] = t
+	sh.m[h] = append(sh.m[h], t)
 	return t
 }
 
@@ -129,14 +212,14 @@ func mk(op string, sort *Sort, args ...*Term) *Term {
 }
 
 func mkRaw(op string, sort *Sort, args ...*Term) *Term {
-	termMu.Lock()
-	termCounter++
-	id := termCounter
-	termMu.Unlock()
+	id := int(atomic.AddInt64(&termCounter, 1))
 	t := &Term{Op: op, Sort: sort, Args: args, id: id, size: 1}
 	for _, a := range args {
 		if a.hasBound {
 			t.hasBound = true
+		}
+		if a.hasQuant {
+			t.hasQuant = true
 		}
 		t.size += a.size
 		if t.size > 1<<30 {
@@ -593,6 +676,7 @@ func quant(q string, bound []*Term, body *Term) *Term {
 		return body
 	}
 	t := mk(q, BoolSort, body)
+	t.hasQuant = true
 	t.Bound = bound
 	// still contains bound vars only if body references outer bound vars
 	t.hasBound = hasOuterBound(body, bound)
@@ -663,6 +747,10 @@ func Substitute(t *Term, m map[string]*Term) *Term {
 	cache := map[*Term]*Term{}
 	var rec func(x *Term) *Term
 	rec = func(x *Term) *Term {
+		if !x.hasBound {
+			// only bound variables are ever substituted: a term without free bound variables is unchanged
+			return x
+		}
 		if r, ok := cache[x]; ok {
 			return r
 		}
